@@ -520,6 +520,17 @@ def strip_cast_t(t):
 REORDER = re.compile(r"::(sort\w*|reverse|rev|swap\w*|retain\w*|dedup\w*|truncate|pop|remove|insert|drain|rotate\w*|shuffle|split_off)$")
 
 
+def _subst_single_generic(adt, outer_ty, inner_ty):
+    """the field type of a wrapper with one type parameter, with the wrapper's type argument (taken from `outer_ty`) in its place"""
+    m_ = re.match(r"^[\w:]+<(.*)>$", outer_ty)
+    if adt.get("n_generics") == 1 and m_:
+        params_ = set(re.findall(r"(?<![\w:])([A-Z]\w*)(?![\w:])", inner_ty))
+        if len(params_) == 1:
+            arg_ = m_.group(1)
+            return re.sub(r"(?<![\w:])%s(?![\w:])" % list(params_)[0], lambda mo: arg_, inner_ty)
+    return inner_ty
+
+
 def check_order(fx, rep, rule, wv):
     cip = fx.adt(RAW + "ClassInProgress")
     if cip is None:
@@ -534,7 +545,16 @@ def check_order(fx, rep, rule, wv):
             if wt_ and a_["path"].split("::")[-1] == wt_ and not a_.get("reachable_pub") and a_.get("kind") == "Struct":
                 inner_ = {f_["name"]: f_["ty"] for f_ in a_["variants"][0]["fields"]}
                 if wf_ in inner_:
-                    tys[fname_] = inner_[wf_]
+                    tys[fname_] = _subst_single_generic(a_, tys.get(fname_, ""), inner_[wf_])
+    # a member map behind a crate-private single-field tuple struct (`struct MemberGroups<K>(BTreeMap<K, Vec<Member>>)`): the
+    # container is the wrapped map, with the wrapper's type argument put in place of its parameter
+    for fname_ in ("members", "members_by_params"):
+        fty_ = tys.get(fname_, "")
+        wt_ = re.sub(r"<.*$", "", fty_).split("::")[-1]
+        for a_ in fx.all_adts("proguard"):
+            if wt_ and a_["path"].split("::")[-1] == wt_ and not a_.get("reachable_pub") and a_.get("kind") == "Struct" \
+                    and [f_["name"] for f_ in a_["variants"][0]["fields"]] == ["0"]:
+                tys[fname_] = _subst_single_generic(a_, fty_, a_["variants"][0]["fields"][0]["ty"])
     rep.check(rule, "%s/container/members" % rule, tys.get("members", "").startswith("std::collections::BTreeMap<&") and "Vec<cache::raw::Member>" in tys.get("members", ""),
               loc=F.short_file(cip["sp"]), found="members: %s" % tys.get("members"), expected="BTreeMap<&str, Vec<Member>> (sorted by obfuscated name, file order within)")
     def pair_key_ok(ty):
